@@ -2,7 +2,10 @@
 use crate::engine::Suite;
 
 pub fn suites() -> Vec<Suite> {
-    let mut v = vec![super::swapf::suite_c06()];
+    let mut v = vec![];
+    if cfg!(feature = "d-swap") {
+        v.push(super::swapf::suite_c06());
+    }
     v.extend(sys_suites());
     v
 }
